@@ -95,6 +95,78 @@ func c37GenSeed(t *rapid.T, label string) *big.Int {
 	}
 }
 
+// c37NearSeed returns a value DIFFERENT from s that agrees with it in most
+// of its digits: one high bit (64..255) or one low bit (0..63) flipped, a
+// multiple of 2^64 / 2^128 added (same low words), only the low 64 bits kept,
+// shifted by one hex digit (leading-zero look-alike), or +-1.
+func c37NearSeed(t *rapid.T, s *big.Int, label string) *big.Int {
+	one := big.NewInt(1)
+	r := new(big.Int).Set(s)
+	switch rapid.SampledFrom([]string{"high-bit", "high-bit", "low-bit", "add-2^64k", "add-2^128", "low-64-only", "times-16", "plus-1", "minus-1"}).Draw(t, label+"Near") {
+	case "high-bit":
+		r.SetBit(r, rapid.IntRange(64, 255).Draw(t, label+"HighBit"), r.Bit(255)^1)
+		if r.Cmp(s) == 0 {
+			r.Xor(r, new(big.Int).Lsh(one, uint(rapid.IntRange(64, 255).Draw(t, label+"HighBit2"))))
+		}
+	case "low-bit":
+		r.Xor(r, new(big.Int).Lsh(one, uint(rapid.IntRange(0, 63).Draw(t, label+"LowBit"))))
+	case "add-2^64k":
+		k := big.NewInt(int64(rapid.IntRange(1, 1000).Draw(t, label+"K")))
+		r.Add(r, k.Lsh(k, 64))
+	case "add-2^128":
+		r.Add(r, new(big.Int).Lsh(one, 128))
+	case "low-64-only":
+		r.SetUint64(r.Uint64())
+	case "times-16":
+		r.Lsh(r, 4)
+	case "plus-1":
+		r.Add(r, one)
+	case "minus-1":
+		r.Sub(r, one)
+	}
+	// stay in the domain (0 <= seed < 2^256) and different from s
+	if r.Sign() < 0 || r.BitLen() > 256 || r.Cmp(s) == 0 {
+		r.Xor(s, new(big.Int).Lsh(one, uint(rapid.IntRange(64, 255).Draw(t, label+"Fallback"))))
+	}
+	return r
+}
+
+// near twins of the other key components: one bit flipped anywhere
+func c37NearBytes(t *rapid.T, b [32]byte, label string) [32]byte {
+	pos := rapid.SampledFrom([]int{0, 1, 7, 8, 15, 16, 23, 24, 30, 31}).Draw(t, label+"Byte")
+	if rapid.Bool().Draw(t, label+"AnyByte") {
+		pos = rapid.IntRange(0, 31).Draw(t, label+"BytePos")
+	}
+	b[pos] ^= 1 << rapid.IntRange(0, 7).Draw(t, label+"Bit")
+	return b
+}
+
+func c37NearBlock(t *rapid.T, b uint64, label string) uint64 {
+	switch rapid.SampledFrom([]string{"plus-1", "minus-1", "high-bit", "low-bit", "times-10", "low-32-only"}).Draw(t, label+"Near") {
+	case "plus-1":
+		return b + 1
+	case "minus-1":
+		if b > 0 {
+			return b - 1
+		}
+		return b + 1
+	case "high-bit":
+		return b ^ (1 << rapid.IntRange(32, 61).Draw(t, label+"HighBit"))
+	case "low-bit":
+		return b ^ (1 << rapid.IntRange(0, 31).Draw(t, label+"LowBit"))
+	case "times-10":
+		if b > 0 && b < 1<<58 {
+			return b * 10
+		}
+		return b + 10
+	default:
+		if b>>32 != 0 {
+			return b & 0xffffffff
+		}
+		return b | 1<<32
+	}
+}
+
 func c37GenHash(t *rapid.T, label string) DKGChainResultHash {
 	return c37HashFromHex(c37GenHex(t, 64, label, false))
 }
@@ -152,6 +224,23 @@ func TestVerif_C37_Sequential(t *testing.T) {
 			wallets[i] = c37GenWallet(t, "wallet")
 		}
 
+		// near twins: pool entries that differ from another entry only in high
+		// bits, low bits, by a leading digit, ... - different events all the same
+		nearTwins := rapid.Bool().Draw(t, "nearTwins")
+		if nearTwins {
+			if nSeeds > 1 {
+				seeds[nSeeds-1] = c37NearSeed(t, seeds[0], "seedTwin")
+			}
+			if nHashes > 1 {
+				hashes[nHashes-1] = DKGChainResultHash(c37NearBytes(t, [32]byte(hashes[0]), "hashTwin"))
+			}
+			if nBlocks > 1 {
+				blocks[nBlocks-1] = c37NearBlock(t, blocks[0], "blockTwin")
+			}
+			if nWallets > 1 {
+				wallets[nWallets-1] = c37NearBytes(t, wallets[0], "walletTwin")
+			}
+		}
 		// cross-kind twins: a wallet ID whose hex text equals the hex text of a
 		// DKG seed (a 64-digit seed). They are different events of different
 		// kinds and must never shadow one another.
@@ -233,7 +322,7 @@ func TestVerif_C37_Sequential(t *testing.T) {
 			}
 		}
 		nt := repeats > 0 && len(kinds) >= 2
-		st.Case(nt, strings.Join(hist, " "), fmt.Sprintf("kinds:%d", len(kinds)), fmt.Sprintf("repeats:%s", c37Bucket(repeats)), fmt.Sprintf("cross-kind-twin:%v", twin))
+		st.Case(nt, strings.Join(hist, " "), fmt.Sprintf("kinds:%d", len(kinds)), fmt.Sprintf("repeats:%s", c37Bucket(repeats)), fmt.Sprintf("cross-kind-twin:%v", twin), fmt.Sprintf("near-twins:%v", nearTwins))
 	})
 }
 
@@ -292,7 +381,7 @@ func TestVerif_C37_DistinctResultEvents(t *testing.T) {
 	excludeShift := verifkit.Known(c37KeyCat)
 	rapid.Check(t, func(t *rapid.T) {
 		var a, b c37Result
-		class := rapid.SampledFrom([]string{"identical", "seed", "hash", "block", "all", "shifted", "shifted", "shifted"}).Draw(t, "class")
+		class := rapid.SampledFrom([]string{"identical", "seed", "hash", "block", "all", "near-seed", "near-seed", "near-hash", "near-block", "shifted", "shifted", "shifted"}).Draw(t, "class")
 		if class == "shifted" && excludeShift {
 			st.Excluded(c37KeyCat)
 			class = "all"
@@ -312,6 +401,14 @@ func TestVerif_C37_DistinctResultEvents(t *testing.T) {
 			}
 			if class == "block" || class == "all" {
 				b.block = c37GenBlock(t, "blockB")
+			}
+			switch class {
+			case "near-seed":
+				b.seed = c37NearSeed(t, a.seed, "seedB")
+			case "near-hash":
+				b.hash = DKGChainResultHash(c37NearBytes(t, [32]byte(a.hash), "hashB"))
+			case "near-block":
+				b.block = c37NearBlock(t, a.block, "blockB")
 			}
 		}
 		if rapid.Bool().Draw(t, "swap") {
